@@ -84,6 +84,7 @@ type ReaderPlan struct {
 	ErrAt       int64  `json:"err_at"`
 	Errno       string `json:"errno,omitempty"`
 	EOFWithData bool   `json:"eof_with_data,omitempty"`
+	ZeroEvery   int    `json:"zero_every,omitempty"`
 }
 
 type WriterPlan struct {
